@@ -215,7 +215,7 @@ def checkArguments (S : Schema) (parentPos : Pos) (args : List Arg) (defs : List
     (if args.isEmpty then [] else [(.ArgumentsNotNeeded, parentPos)])
   else
     -- "Argument names must be unique; only the first argument of a name is matched below"
-    loopSeen (·.1) (fun dup (a : Arg) => if dup then [(ErrKind.UnknownArgument, a.2.1)] else []) [] args ++
+    loopSeen (·.1) (fun dup (a : Arg) => if dup then [(ErrKind.DuplicatedName, a.2.1)] else []) [] args ++
     (defs.flatMap fun ad =>
       match args.find? (·.1 == ad.name) with
       | none => if InputValueDef.required ad then [(.RequiredArgumentNotSpecified, parentPos)] else []
